@@ -447,3 +447,39 @@ func TestGovcReplayFork(t *testing.T) {
 	}
 	fmt.Println("NOT-REPRODUCED: siblings stay independent at every depth tried")
 }
+
+// TestGovcReplayPolicyOrder: C04 — the first policy, in insertion order, that has a
+// satisfied query decides; later policies are not consulted.
+func TestGovcReplayPolicyOrder(t *testing.T) {
+	tok, pub := govcToken(t)
+	matchAll := []Rule{{Head: Predicate{Name: "p"}, Body: []Predicate{{Name: "right", IDs: []Term{Variable("f"), Variable("op")}}}}}
+	matchNone := []Rule{{Head: Predicate{Name: "p"}, Body: []Predicate{{Name: "nothing", IDs: []Term{Integer(1)}}}}}
+	allow := func(q []Rule) Policy { return Policy{Kind: PolicyKindAllow, Queries: q} }
+	deny := func(q []Rule) Policy { return Policy{Kind: PolicyKindDeny, Queries: q} }
+	cases := []struct {
+		name     string
+		policies []Policy
+		want     error
+	}{
+		{"deny then allow", []Policy{deny(matchAll), allow(matchAll)}, ErrPolicyDenied},
+		{"allow then deny", []Policy{allow(matchAll), deny(matchAll)}, nil},
+		{"non-matching allow, deny, allow", []Policy{allow(matchNone), deny(matchAll), allow(matchAll)}, ErrPolicyDenied},
+		{"non-matching deny, allow, deny", []Policy{deny(matchNone), allow(matchAll), deny(matchAll)}, nil},
+		{"nothing matches", []Policy{allow(matchNone), deny(matchNone)}, ErrNoMatchingPolicy},
+	}
+	for _, c := range cases {
+		a, err := tok.Authorizer(pub)
+		if err != nil {
+			t.Fatalf("authorizer: %v", err)
+		}
+		for _, p := range c.policies {
+			a.AddPolicy(p)
+		}
+		if got := a.Authorize(); got != c.want {
+			fmt.Printf("REPRODUCED: policies [%s] on a token with right(\"/a/file1\",\"read\"): Authorize returns %v, the first matching policy gives %v\n", c.name, got, c.want)
+			t.Fail()
+			return
+		}
+	}
+	fmt.Println("NOT-REPRODUCED: the first matching policy decides in every order tried")
+}
